@@ -312,6 +312,75 @@ def _level_reset_before(lp, var="lvl"):
     return False
 
 
+def _inside(node, stmts):
+    return any(node is n for s in stmts for n in ast.walk(s))
+
+
+def _follows(node, lp):
+    """node is in a statement of the block that contains the loop, after the loop"""
+    blk = getattr(lp, "_parent", None)
+    for fld in ("body", "orelse", "finalbody"):
+        lst = getattr(blk, fld, None)
+        if isinstance(lst, list) and lp in lst:
+            return _inside(node, lst[lst.index(lp) + 1:])
+    return False
+
+
+def _scan_outcomes(prog, c, lp, ev, var="lvl"):
+    """{(tag class, level before): {(how the iteration ends, level after, calls made)}} over the loop body's paths,
+    with the level followed through its increments and decrements"""
+    from .common import body_paths, consistent
+    out = {}
+    for cls in (0, 1, 2, 3):
+        for v0 in (0, 1, 2):
+            res = set()
+            for p in body_paths(lp.body):
+                if not consistent(p.conds()):
+                    continue
+                env = {"tag.tagClass": cls, var: v0}
+                ok = True
+                calls = []
+                for e in p.events:
+                    if e.kind == "cond":
+                        v = ev.eval3(e.node, env)
+                        if v is not None and v != e.pol:
+                            ok = False
+                            break
+                    elif e.kind == "stmt":
+                        n = e.node
+                        if isinstance(n, ast.AugAssign) and norm(n.target) == var:
+                            k = prog.try_const(c.module, n.value)
+                            if var in env and isinstance(k, int) and isinstance(n.op, (ast.Add, ast.Sub)):
+                                env[var] = env[var] + (k if isinstance(n.op, ast.Add) else -k)
+                            else:
+                                env.pop(var, None)
+                        elif isinstance(n, ast.Assign) and any(norm(t) == var for t in n.targets):
+                            k = prog.try_const(c.module, n.value)
+                            if isinstance(k, int):
+                                env[var] = k
+                            else:
+                                env.pop(var, None)
+                        calls += [norm(x.func) for x in calls_in(n)]
+                if ok:
+                    res.add((p.term, env.get(var), tuple(calls)))
+            out[(cls, v0)] = res
+    return out
+
+
+def _stops_at_matching_close(outcomes):
+    """an iteration leaves the loop exactly for a closing tag met at level 0; -> (ok, levels seen at the break)"""
+    at_break = set()
+    ok = True
+    for (cls, v0), res in outcomes.items():
+        terms = {t for t, _, _ in res}
+        if cls == 3 and v0 == 0:
+            ok = ok and terms == {"break"}
+            at_break |= {lv for t, lv, _ in res if t == "break"}
+        else:
+            ok = ok and bool(terms) and "break" not in terms and "return" not in terms and "raise" not in terms
+    return ok, at_break
+
+
 @rule("C02.R4", "nested groups are delimited by counting opening (+1) and closing (-1) tags; imbalance is refused", floor=4, engines="E1 paths + E5")
 def r4(ctx):
     prog = ctx.prog
@@ -326,20 +395,20 @@ def r4(ctx):
         ctx.check("TagList.get_context:level-counting", ok, where(tl.module, lp), detail)
         ctx.check("TagList.get_context:level-starts-at-zero", _level_reset_before(lp), where(tl.module, lp),
                   "the nesting level must be set to 0 right before each group is scanned (same block as the scan loop): a value left over from the previous group mis-delimits the next one")
-        brk = [b for b in ast.walk(lp) if isinstance(b, ast.Break)]
         ev = Evaluator(prog, tl.module, tl)
-        okb = len(brk) == 1
-        if okb:
-            reach = [v for v in (-2, -1, 0, 1) if ev.may_hold(facts_at(brk[0], stop=lp), {"lvl": v, "tag.tagClass": 3})]
-            okb = reach == [-2, -1]
-        ctx.check("TagList.get_context:stops-at-matching-close", okb, where(tl.module, lp), "the scan must stop exactly when the level goes negative")
-    rs = [r for r in walk_shallow(f) if isinstance(r, ast.Raise) and "mismatched" in norm(r)]
-    ev = Evaluator(prog, tl.module, tl)
-    ok = len(rs) == 1
-    if ok:
-        reach = [v for v in (-1, 0, 1, 2) if ev.may_hold([x for x in facts_at(rs[0]) if "lvl" in norm(x.test)], {"lvl": v})]
-        ok = reach == [0, 1, 2]
-    ctx.check("TagList.get_context:imbalance-refused", ok, where(tl.module, f), "a group that is never closed must be refused with InvalidTag")
+        okb, at_break = _stops_at_matching_close(_scan_outcomes(prog, tl, lp, ev))
+        ctx.check("TagList.get_context:stops-at-matching-close", okb, where(tl.module, lp), "the scan must stop exactly at the closing tag that is met at level 0 (the one that matches the opening tag)")
+        # running off the end of the list (any level >= 0) is an imbalance, leaving through the break is not
+        rs = [r for r in walk_shallow(f) if isinstance(r, ast.Raise) and isinstance(r.exc, ast.Call) and norm(r.exc.func) == "InvalidTag" and not _inside(r, lp.body)
+              and (_inside(r, lp.orelse) or any("lvl" in norm(x.test) for x in facts_at(r)))]
+        ok = len(rs) == 1
+        if ok and _inside(rs[0], lp.orelse):
+            ok = not [x for x in facts_at(rs[0], stop=lp) if x.origin != "loop"]          # the else clause of the scan: exactly the exhausted case
+        elif ok:
+            fa = [x for x in facts_at(rs[0]) if "lvl" in norm(x.test)]
+            ok = all(ev.may_hold(fa, {"lvl": v}) for v in (0, 1, 2)) \
+                and not any(ev.may_hold(fa, {"lvl": v}) for v in at_break) and _follows(rs[0], lp)
+        ctx.check("TagList.get_context:imbalance-refused", ok, where(tl.module, f), "a group that is never closed must be refused with InvalidTag")
     a = prog.cls("constructeddata", "Any")
     g = a.methods.get("decode")
     if g is None:
@@ -353,17 +422,17 @@ def r4(ctx):
         ap = [x for x in calls_in(lp) if norm(x.func) == "self.tagList.append"]
         ok2 = len(ap) == 1 and norm(ap[0].args[0]) == "taglist.Pop()"
         ctx.check("Any.decode:keeps-what-it-pops", ok2, where(a.module, lp), "Any must keep exactly the tags it removes from the list")
-        brk = [b for b in ast.walk(lp) if isinstance(b, ast.Break)]
         eva = Evaluator(prog, a.module, a)
-        okb = len(brk) == 1
-        if okb:
-            reach = [v for v in (-2, -1, 0, 1) if eva.may_hold(facts_at(brk[0], stop=lp), {"lvl": v, "tag.tagClass": 3})]
-            okb = reach == [-2, -1] and ap and brk[0].lineno < ap[0].lineno
+        oc = _scan_outcomes(prog, a, lp, eva)
+        okb, at_break_any = _stops_at_matching_close(oc)
+        # ... and the tag it stops at stays in the list; every other tag is taken
+        okb = okb and all(("taglist.Pop" in calls) == (t != "break") for res in oc.values() for t, _, calls in res)
         ctx.check("Any.decode:leaves-enclosing-close", okb, where(a.module, lp), "the closing tag of the enclosing group must be left in the list")
     rs = [r for r in walk_shallow(g) if isinstance(r, ast.Raise)]
     eva = Evaluator(prog, a.module, a)
     ok = len(rs) == 1
     if ok:
+        # the list may end at level 0 (nothing open); a level above 0 at the end is an imbalance; the level at the break is not
         reach = [v for v in (-1, 0, 1, 2) if eva.may_hold(facts_at(rs[0]), {"lvl": v})]
-        ok = reach == [1, 2]
+        ok = 1 in reach and 2 in reach and 0 not in reach and not (set(reach) & set(x for x in at_break_any if x is not None))
     ctx.check("Any.decode:imbalance-refused", ok, where(a.module, g), "an opening tag without its closing tag must be refused")
